@@ -444,6 +444,8 @@ class TreeTransformBase(TreeTransform):
             else:
                 to_mode = current_mode & ~0o111
             osutils.chmod_if_possible(abspath, to_mode)
+            return abspath, current_mode
+        return None
 
     def _new_entry(self, name, parent_id, file_id):
         """Helper function to create a new filesystem entry."""
@@ -1584,12 +1586,6 @@ class GitTreeTransform(DiskTreeTransform):
                 if trans_id in self._new_contents or self.path_changed(trans_id):
                     if trans_id in self._new_contents:
                         modified_paths.append(full_path)
-                if trans_id in self._new_executability:
-                    self._set_executability(path, trans_id)
-                if trans_id in self._observed_sha1s:
-                    o_sha1, _o_st_val = self._observed_sha1s[trans_id]
-                    st = osutils.lstat(full_path)
-                    self._observed_sha1s[trans_id] = (o_sha1, st)
                 if trans_id in self._new_reference_revision:
                     for (
                         submodule_path,
@@ -1615,6 +1611,23 @@ class GitTreeTransform(DiskTreeTransform):
                         f.write(
                             f"gitdir: {os.path.relpath(submodule_abspath, full_path)}\n"
                         )
+        # Executable bits are changed only once every rename has succeeded, and
+        # are put back if a later step fails: mover.rollback() can reverse
+        # renames but not a chmod.
+        old_modes = []
+        try:
+            for path, trans_id in new_paths:
+                if trans_id in self._new_executability:
+                    old_modes.append(self._set_executability(path, trans_id))
+                if trans_id in self._observed_sha1s:
+                    o_sha1, _o_st_val = self._observed_sha1s[trans_id]
+                    st = osutils.lstat(self._tree.abspath(path))
+                    self._observed_sha1s[trans_id] = (o_sha1, st)
+        except BaseException:
+            for old_mode in reversed(old_modes):
+                if old_mode is not None:
+                    osutils.chmod_if_possible(*old_mode)
+            raise
         for _path, trans_id in new_paths:
             # new_paths includes stuff like workingtree conflicts. Only the
             # stuff in new_contents actually comes from limbo.
